@@ -257,6 +257,25 @@ def compare(case: dict, lean: dict, impl: dict, limits: list[int], cli_limit: in
                              property_fails=fails_spec, note=" | ".join(problems)[:3000])
 
 
+def add_layout_noise(rng, lang: str, lean: dict) -> None:
+    """Blank lines (Python: also comment lines) in front of clause lines - elif / else / except / finally / case / a closing brace -
+    and between statements: layout never changes a depth.  Rewrites lean["text"] and the header lines of lean["fns"]."""
+    lines = lean["text"].split("\n")
+    out, shift_at = [], []          # shift_at: original 1-based line numbers before which a line was inserted
+    for n, ln in enumerate(lines, start=1):
+        st = ln.strip()
+        clause = st.startswith(("elif ", "else", "except", "finally", "case ", "} else", "} catch", "} finally", "}"))
+        if n > 1 and st and rng.random() < (0.5 if clause else 0.08):
+            ind = ln[: len(ln) - len(ln.lstrip())]
+            out.append(ind + "# layout" if lang == "py" and rng.random() < 0.5 else "")
+            shift_at.append(n)
+        out.append(ln)
+    lean["text"] = "\n".join(out)
+    for f in lean["fns"]:
+        f["line"] += sum(1 for k in shift_at if k <= f["line"])
+    lean["layout_noise"] = len(shift_at)
+
+
 def evaluate(cases: list[dict], rng, res: core.Result, procs: int = 16, full_sweep: bool = True):
     drv = core.Driver()
     leans = drv.batch(cases)
@@ -272,6 +291,8 @@ def evaluate(cases: list[dict], rng, res: core.Result, procs: int = 16, full_swe
             keep = {1, maxdoc + 1} | {x for f in l["fns"] for x in (f["doc"] - 1, f["doc"], f["depth"] - 1, f["depth"])}
             limits = [x for x in limits if x in keep]
         cli_limit = rng.choice(limits)
+        if rng.random() < 0.35:
+            add_layout_noise(rng, c["lang"], l)
         work.append((i, c["lang"], l["text"], limits, cli_limit, str(root)))
     try:
         if True:
@@ -284,6 +305,7 @@ def evaluate(cases: list[dict], rng, res: core.Result, procs: int = 16, full_swe
         res.bump("lang", c["lang"])
         res.bump("max_documented_depth", maxdoc)
         res.bump("functions_per_file", len(c["fns"]))
+        res.bump("layout", "blank / comment lines inserted before clauses and statements" if l.get("layout_noise") else "as rendered")
         for f in c["fns"]:
             res.bump("wrap", f["wrap"])
         for k in _kinds(c):
